@@ -764,4 +764,5 @@ def run(prog, ctx):
     res.explanation = ("return expressions of the estimator and bound routines are extracted from MIR and evaluated over their whole configuration "
                        "domain and a grid of state values; tables are read from rustc's evaluated statics")
     res.not_decided = "bias, RSE and coverage rates (statistical); calibration of the empirical tables beyond equality with the pinned reference and the monotonic laws"
+    C.interpolation_window_rule(res, prog, "C01.H.cubic")
     return res
